@@ -150,12 +150,13 @@ def native_playback(h, test, repo):
         open(path, 'w').close()
 
 
-def run_native(h, repo):
+def run_native(h, repo, tier='quick'):
     env = _env()
+    env['RDEST_VERIF_TIER'] = tier   # native checks widen their bounds in the thorough tier
     env['RUSTFLAGS'] = (env.get('RUSTFLAGS', '') + ' --cfg rdest_verif').strip()
     cmd = ['cargo', 'test', '--offline', '--lib', '--target-dir', NATIVE_TARGET, h['name']]
     t0 = time.time()
-    cmdtxt = "cd %s && RUSTFLAGS='--cfg rdest_verif' %s" % (repo, ' '.join(cmd))
+    cmdtxt = "cd %s && RDEST_VERIF_TIER=%s RUSTFLAGS='--cfg rdest_verif' %s" % (repo, tier, ' '.join(cmd))
     try:
         p = subprocess.run(cmd, cwd=repo, env=env, capture_output=True, text=True, timeout=h.get('timeout', 900))
     except subprocess.TimeoutExpired:
@@ -184,7 +185,7 @@ def run_for(pid, tier, repo):
     failed = [h for h in kani_hs if batch.get(h['name'], {}).get('status') == 'failed']
     pb = run_kani_batch(failed, repo, playback=True) if failed else {}
     for h in hs:
-        r = batch[h['name']] if h['kind'] in ('complete', 'bounded') else run_native(h, repo)
+        r = batch[h['name']] if h['kind'] in ('complete', 'bounded') else run_native(h, repo, tier)
         row = {'name': ('KANI/' if h['kind'] != 'native' else 'NATIVE/') + h['name'], 'kind': h['kind'], 'what': h['what'], 'pairs': h.get('pairs'),
                'bound': h.get('bound'), 'status': r['status'], 'reason': r['reason'], 'seconds': r['seconds'],
                'cmd': r['cmd'], 'checks': r.get('checks')}
